@@ -322,6 +322,45 @@ def value_at(root, expr, at_line, keep=(), depth=12):
     return ast.fix_missing_locations(expand(_clone(expr), at_line, depth))
 
 
+def temp_def(root, expr):
+    """If `expr` is a read of a local that merely names a value computed just
+    before -- one plain assignment `x = E` in the whole function, in the same
+    statement list as the statement that reads it and ahead of it, with no
+    statement in between that mentions any name occurring in E (so nothing E
+    reads can have been re-bound or mutated) -- return E, else `expr`."""
+    if not (isinstance(expr, ast.Name) and isinstance(expr.ctx, ast.Load)):
+        return expr
+    d = assigns_of(root, expr.id)
+    if not (len(d) == 1 and isinstance(d[0], ast.Assign) and
+            len(d[0].targets) == 1 and isinstance(d[0].targets[0], ast.Name)):
+        return expr
+    d = d[0]
+    use = expr
+    while use is not None and not isinstance(use, ast.stmt):
+        use = parent(use)
+    if use is None:
+        return expr
+    blk = None
+    host = parent(d)
+    for f in ('body', 'orelse', 'finalbody'):
+        b = getattr(host, f, None)
+        if isinstance(b, list) and _in_list(d, b):
+            blk = b
+    if blk is None:
+        return expr
+    i = [k for k, st in enumerate(blk) if st is d][0]
+    j = [k for k, st in enumerate(blk) if st is use]
+    if not j or j[0] <= i:
+        return expr
+    operands = {n.id for n in ast.walk(d.value) if isinstance(n, ast.Name)}
+    operands.add(expr.id)
+    for st in blk[i + 1:j[0]]:
+        if any(isinstance(n, ast.Name) and n.id in operands
+               for n in ast.walk(st)):
+            return expr
+    return d.value
+
+
 def linear_terms(e):
     """[(sign, source)] of a +/- chain; None if not a pure +/- chain."""
     out = []
